@@ -246,3 +246,52 @@ def include_programs(tier, seed):
     progs.append(IncProg('inc/non-ascii', [Com('// © 2024 été'), T('a', '\n'), Inc('f.svh'), T('z', '\n')], ['A'],
                          {'f.svh': [Com('/* ü */', ' '), T('fc', '\n')]}, exists={'f.svh': True}))
     return progs
+
+
+class DepthProg(IncProg):
+    def __init__(self, label, items, files=None, rd=0, idp=0, names=('A',)):
+        IncProg.__init__(self, label, items, list(names), files or {}, exists={p: True for p in (files or {})}, include_paths=())
+        self.rd, self.idp = rd, idp
+
+
+def depth_programs(tier, seed):
+    progs = []
+    S = 'sym'
+    progs.append(DepthProg('depth/plain', [T('a', '\n')], idp=S))
+    progs.append(DepthProg('depth/use1', [Def('M', 'x'), Use('M', None, '\n')], rd=S))
+    progs.append(DepthProg('depth/use-caller', [Use('A', None, '\n')], rd=S))
+    progs.append(DepthProg('depth/use-undefined', [Use('Q', None, '\n')], rd=S))
+    progs.append(DepthProg('depth/chain2', [Def('N', 'x'), Def('M', '`N', body_items=[Use('N', None, '')]), Use('M', None, '\n')], rd=S))
+    progs.append(DepthProg('depth/chain3', [Def('O', 'x'), Def('N', '`O', body_items=[Use('O', None, '')]),
+                                            Def('M', '`N', body_items=[Use('N', None, '')]), Use('M', None, '\n')], rd=S))
+    progs.append(DepthProg('depth/inc1', [Inc('f.svh'), T('z', '\n')], {'f.svh': [T('f0', '\n')]}, idp=S))
+    progs.append(DepthProg('depth/inc1-both', [Inc('f.svh'), T('z', '\n')], {'f.svh': [T('f0', '\n')]}, idp=S, rd=S))
+    progs.append(DepthProg('depth/inc-macro', [Inc('f.svh'), T('z', '\n')], {'f.svh': [Def('M', 'x'), Use('M', None, '\n')]}, idp=S))
+    progs.append(DepthProg('depth/inc-macro-chain', [Inc('f.svh'), T('z', '\n')],
+                           {'f.svh': [Def('N', 'x'), Def('M', '`N', body_items=[Use('N', None, '')]), Use('M', None, '\n')]}, idp=S))
+    progs.append(DepthProg('depth/inc-chain2', [Inc('f.svh')], {'f.svh': [T('f0', '\n'), Inc('g.svh')], 'g.svh': [T('g0', '\n')]}, idp=S))
+    progs.append(DepthProg('depth/inc-missing-deep', [Inc('f.svh')], {'f.svh': [Inc('nofile.svh')]}, idp=S))
+    progs.append(DepthProg('depth/macro-named-inc', [Def('INC', '"f.svh"'), Inc('f.svh', 'INC')], {'f.svh': [T('f0', '\n')]}, rd=S, idp=S))
+    progs.append(DepthProg('depth/inc-in-macro', [Def('INC', '`include "f.svh"', body_items=[Inc('f.svh')]), Use('INC', None, '\n')],
+                           {'f.svh': [T('f0', '\n')]}, rd=S, idp=S))
+    # cycles (concrete start depths)
+    progs.append(DepthProg('cycle/macro-direct', [Def('M', '`M', body_items=[Use('M', None, '')]), Use('M', None, '\n')]))
+    progs.append(DepthProg('cycle/macro-mutual', [Def('M', '`N', body_items=[Use('N', None, '')]), Def('N', '`M', body_items=[Use('M', None, '')]), Use('M', None, '\n')]))
+    progs.append(DepthProg('cycle/macro-3', [Def('M', '`N', body_items=[Use('N', None, '')]), Def('N', '`O', body_items=[Use('O', None, '')]),
+                                             Def('O', 'x `M', body_items=[T('x', ' '), Use('M', None, '')]), Use('M', None, '\n')]))
+    progs.append(DepthProg('cycle/include-self', [Inc('f.svh')], {'f.svh': [T('f0', '\n'), Inc('f.svh')]}))
+    progs.append(DepthProg('cycle/include-mutual', [Inc('f.svh')], {'f.svh': [Inc('g.svh')], 'g.svh': [Inc('f.svh')]}))
+    progs.append(DepthProg('cycle/macro-include', [Inc('cyc.svh')],
+                           {'cyc.svh': [Def('INC', '`include "cyc.svh"', body_items=[Inc('cyc.svh')]), Use('INC', None, '\n')]}))
+    # legal deep chains (concrete): 64 nested includes / 64 nested expansions succeed, 65 fail
+    for n in (64, 65):
+        files = {}
+        for i in range(1, n + 1):
+            files['f%d.svh' % i] = [Inc('f%d.svh' % (i + 1))] if i < n else [T('deep', '\n')]
+        progs.append(DepthProg('chain/include-%d' % n, [Inc('f1.svh'), T('z', '\n')], files))
+        items = [Def('M%d' % n, 'deep')]
+        for i in range(n - 1, 0, -1):
+            items.append(Def('M%d' % i, '`M%d' % (i + 1), body_items=[Use('M%d' % (i + 1), None, '')]))
+        items.append(Use('M1', None, '\n'))
+        progs.append(DepthProg('chain/macro-%d' % n, items))
+    return progs
